@@ -8,6 +8,8 @@ entNames sysNames tokens sigs""".split()
 KILL = "alive storage entReactors removedBuf comp dspTracker dspChan data ewLocal trace arcRc autoChan".split()
 TRK = "trkSys trkEvt trkEnt trkDsp".split()
 
+APPLY_T = [f for f in FIELDS if f not in ("counter", "buffered", "info", "res", "children", "topIdx", "entNames", "sysNames", "tokens", "sigs", "wrSys", "ewrSys", "wq")]
+ENQ_T = ["nextEnt", "alive", "entNames", "sysNames", "info", "tokens", "res", "comp", "trace"]
 # name -> (binders, application, touched fields, tactic)
 T_SPLIT = "unfold {f}; repeat' (first | rfl | split | dsimp only)"
 T_SIMP = "simp [{f}]"
@@ -40,8 +42,27 @@ FUNCS = [
     ("observe", "(w : Option Nat)", "(observe s w).2", ["data"], "unfold observe; dsimp only; split <;> (try split) <;> rfl"),
     ("enqueue", "(a : Act)", "(enqueue s a).1", ["nextEnt", "alive", "entNames", "sysNames", "info", "tokens", "res", "comp", "trace"],
         "cases a <;> simp only [enqueue] <;> repeat' (first | rfl | split | dsimp only)"),
+    ("applyCmd", "(c : Cmd)", "applyCmd s c", [f for f in FIELDS if f not in ("counter", "buffered", "info", "res", "children", "topIdx", "entNames", "sysNames", "tokens", "sigs", "wrSys", "ewrSys", "wq")],
+        "APPLYCMD"),
     ("preBody", "(sys : Nat) (k : Kind)", "preBody s sys k", TRK + ["arcRc", "autoChan", "trace"], "unfold preBody; dsimp only; split <;> simp"),
     ("startBody", "(sys : Nat) (k : Kind)", "startBody s sys k", TRK + ["arcRc", "autoChan", "trace", "info", "data"], "STARTBODY"),
+    ("doBatch", "(cs : List Cmd)", "doBatch s cs", APPLY_T + ["stack"], "cases cs <;> simp [doBatch, St.push]"),
+    ("doFlush", "", "doFlush s", ["wq", "stack"], "unfold doFlush; split <;> simp [St.push]"),
+    ("doBodyActs", "(p : Prog) (sys : Nat) (k : Kind) (i : Nat) (acc : List Cmd)", "doBodyActs p s sys k i acc", ENQ_T + ["stack"], "unfold doBodyActs; split <;> simp [St.push]"),
+    ("doExclActs", "(p : Prog) (sys i : Nat)", "doExclActs p s sys i", ENQ_T + ["stack", "wq"], "unfold doExclActs; split <;> simp [St.push]"),
+    ("doTopActs", "(h : Hist) (t i : Nat)", "doTopActs h s t i", ENQ_T + ["stack", "wq"], "unfold doTopActs; split <;> simp [St.push]"),
+    ("doOnceTail", "(sys : Nat)", "doOnceTail s sys", KILL + ["wq", "stack"], "simp [doOnceTail, St.push]"),
+    ("doRunnerStart", "(sys : Nat) (k : Kind)", "doRunnerStart s sys k", ["trace", "stack"], "simp [doRunnerStart, St.push]"),
+    ("doRunnerLookup", "(sys : Nat) (k : Kind) (idx : Nat)", "doRunnerLookup s sys k idx", TRK + ["arcRc", "autoChan", "trace", "info", "data", "storage", "counter", "buffered", "stack", "wq"],
+        "BLOCK:unfold doRunnerLookup|split|· simp [St.push]|· split|  · simp [St.push]|  · split <;> simp [St.push]|  · dsimp only|    split|    · simp [St.push]|    · split|      · simp [St.push]|      · split <;> simp [St.push]"),
+    ("doAfterBody", "(sys idx : Nat)", "doAfterBody s sys idx", ["trace", "stack"], "simp [doAfterBody, St.push]"),
+    ("doReinsert", "(sys idx : Nat)", "doReinsert s sys idx", ["storage", "trace", "stack"], "unfold doReinsert; repeat' (first | split | dsimp only) <;> simp [St.push]"),
+    ("doReplayTake", "(sys idx : Nat)", "doReplayTake s sys idx", ["buffered", "stack"], "simp [doReplayTake, St.push]"),
+    ("doReplayLoop", "(sys : Nat) (r kept : List (Nat × Kind)) (idx : Nat)", "doReplayLoop s sys r kept idx", ["buffered", "trace", "stack"], "unfold doReplayLoop; repeat' (first | split | dsimp only) <;> simp [St.push]"),
+    ("doFinish", "(sys idx : Nat)", "doFinish s sys idx", ["counter", "buffered", "trace", "stack"], "unfold doFinish; repeat' (first | split | dsimp only) <;> simp [St.push]"),
+    ("doGc", "", "doGc s", ["autoChan", "stack"], "unfold doGc; split <;> simp [St.push]"),
+    ("doDespawnWork", "(w : List (Nat × Bool))", "doDespawnWork s w", KILL + ["children", "stack"], "BLOCK:unfold doDespawnWork|split|· rfl|· split|  · simp [St.push]|  · split <;> simp [St.push]"),
+    ("doPoll", "", "doPoll s", ["removedBuf", "dspChan", "tblDsp", "wq", "stack"], "simp [doPoll, St.push]"),
 ]
 
 def lemma_name(f, fld): return f.replace("St.", "").replace(".", "_") + "_" + fld
@@ -89,6 +110,9 @@ for f, binders, app, touched, tac in FUNCS:
             out.append("  refine (foldl_field (fun s => s.%s) (fun (s : St) pid => s.emit (Ev.dropPayload pid)) (fun _ _ => rfl) _ _).trans ?_" % fld)
             out.append("  show (observe (preBody s sys k) _).2.%s = _" % fld)
             out.append("  simp")
+        elif tac == "APPLYCMD":
+            out.append("@[simp] theorem %s (s : St)%s : (%s).%s = s.%s := by" % (name, b, app, fld, fld))
+            out.append("  cases c <;> simp only [applyCmd] <;> (try split) <;> (try split) <;> (try split) <;> (try simp [St.push, St.fresh])")
         elif tac.startswith("BLOCK:"):
             out.append("@[simp] theorem %s (s : St)%s : (%s).%s = s.%s := by" % (name, b, app, fld, fld))
             for l in tac[6:].split("|"): out.append("  " + l)
